@@ -23,6 +23,7 @@ pub enum Error {
     InvalidInfoHash,
     /// Peer introduced himself with unexpected ID
     InvalidPeerId,
+    HandshakeMissing,
     /// Invalid length of Piece or Request message (different than requested peer).
     InvalidLength(&'static str),
     /// Invalid piece index (different than requested by peer).
@@ -106,6 +107,7 @@ impl fmt::Display for Error {
             Error::InvalidProtocolId => write!(f, "Invalid protocol Id"),
             Error::InvalidInfoHash => write!(f, "Invalid info hash"),
             Error::InvalidPeerId => write!(f, "Invalid peer id"),
+            Error::HandshakeMissing => write!(f, "Message received before handshake"),
             Error::InvalidLength(msg) => write!(f, "Invalid length in {}", msg),
             Error::InvalidPieceIndex(msg) => write!(f, "Invalid piece index in {}", msg),
             Error::FileNotFound => write!(f, "File not found"),
